@@ -40,7 +40,7 @@ CLAIMED['C10'] = dict(
     text='Proof: bounds validation (raises-iff, all None patterns) and outward alignment; by-index cropping for every layout: refusals leave no output, '
          'write sequence header/data/footer, data length = stated blocks, copied cells/blocks = source cells/blocks of the widened box, regenerated header words, '
          'footer arrays = source values of the box at the stride of the file version.',
-    note='coordinate front end (get_index_range) not under contract; mk_reader object state assumed; AX-FILE for the output handle')
+    note='coordinate front end under contract for line-number ranges (concrete axis increments incl. descending); reader state per ReaderInit; AX-FILE for the output handle')
 CLAIMED['C13'] = dict(
     text='Proof of the subscript semantics of the accessors (ordinal slices/ints with negative wrap; line-number slices with all default combinations on ascending and '
          'descending axes; len) against spec functions transcribed from segyio/CPython. Accessor construction binds each accessor to the count, axis and read method of its kind (those read methods are under the value contracts of C02/C04); subvolume[a:b:c, ...] by line number with steps. '
